@@ -264,6 +264,9 @@ func TestC08_Save(t *testing.T) {
 			okLine := "Command saved successfully!"
 			if pipeline {
 				name, _ := argvString(t, "name")
+				if rapid.IntRange(0, 3).Draw(t, "percent-name") == 0 {
+					name = rapid.SampledFrom([]string{"100% cpu", "%s", "disk 95%", "%d items", "%v%v", "rate %", "%%", "%-5s|"}).Draw(t, "name-with-percent")
+				}
 				want = savedEntry{Command: cmdStr, Description: desc, Niche: niche, Platform: plats, Pipeline: true, UserKeywords: kws}
 				if desc == "" || rapid.IntRange(0, 3).Draw(t, "auto-desc") == 0 {
 					want.AutoDesc, want.AutoName = true, name
